@@ -70,6 +70,21 @@ Step ==
                /\ mrecv' = [q \in Probes |-> mrecv[q] + (IF Hears(m, q) THEN Len(BeforeG(q, v)) ELSE 0) + (IF Hears(m1, q) THEN Len(InG(q, v)) ELSE 0)]
                /\ fails' = AddAll(fails, Clauses(st2, ex2) \cup
                                          (IF S.outcome = "ok" /\ S.ret = RetOf("f", v) THEN {} ELSE {<<"Return", "f">>}))
+       [] op[1] = "calle" ->
+            \* ["calle", v, q]: f(v); where f calls g, probe q (never used before) is activated, g runs under it, q is left again
+            LET q == op[3]
+                v == op[2]
+                ok == status[q] = "new" /\ Valid(q)
+                st2 == IF ok THEN [status EXCEPT ![q] = "done"] ELSE status
+                ex2 == [r \in Probes |-> IF r = q /\ ok THEN expect[r] \o InG(q, v)
+                                          ELSE IF status[r] = "active" THEN expect[r] \o EventsOf(r, "f", v) ELSE expect[r]]
+                m1 == IF ok THEN MActivate(m, q) ELSE m
+            IN /\ status' = st2 /\ expect' = ex2 /\ UNCHANGED <<order, nonlifo>>
+               /\ m' = (IF ok THEN [MDeactivate(m1, q) EXCEPT !.cur = m.cur] ELSE m)
+               /\ mrecv' = [r \in Probes |-> mrecv[r] + (IF r = q THEN (IF ok /\ Hears(m1, q) THEN Len(InG(q, v)) ELSE 0)
+                                                          ELSE IF Hears(m, r) THEN Len(EventsOf(r, "f", v)) ELSE 0)]
+               /\ fails' = AddAll(fails, Clauses(st2, ex2) \cup
+                                         (IF S.outcome = "ok" /\ S.ret = RetOf("f", v) THEN {} ELSE {<<"Return", "f">>}))
        [] op[1] = "act" ->
             LET p == op[2]
                 should == status[p] = "new" /\ Valid(p)
